@@ -1,7 +1,7 @@
 (* C15, converse direction, token level: a successful run of the blank / separator / identifier / literal / path parsers
    read backwards -- the consumed text is the print of a (well-formed) piece of concrete syntax. *)
-From PVIdl Require Import Comb Ast Parser Print Proofs.Total Proofs.RoundTok Proofs.RoundPath Proofs.RoundAnn Proofs.RoundKit
-  Proofs.InvKit.
+From PVIdl Require Import Comb Ast Parser Print Proofs.Total Proofs.RoundTok Proofs.RoundPath Proofs.RoundAnn Proofs.RoundTy Proofs.RoundKit
+  Proofs.Lex Proofs.InvKit.
 From Coq Require Import ZifyN ZifyNat ZifyBool.
 From Coq Require String.
 Import String.StringSyntax.
@@ -290,6 +290,14 @@ Qed.
 (* ---------- paths ---------- *)
 Lemma blank_ok_nonnil bl r : blank_ok bl r -> r <> [] -> wf_blank bl = true.
 Proof. intros [H|[-> _]] Hr; [exact H|contradiction]. Qed.
+
+(* a blank slot begins with an ASCII byte if what follows it does *)
+Lemma blank_ok_ascii bl r : blank_ok bl r -> hd_ascii r = true -> hd_ascii (pr_blank bl r) = true.
+Proof. intros Hb Hr. unfold hd_ascii. apply (blank_then_e _ (is_nil r)); [now apply blank_ok_wfb|exact bs_ascii|auto]. Qed.
+Lemma blank_ne_ascii bl r : blank_ok bl r -> bl <> [] -> hd_ascii (pr_blank bl r) = true.
+Proof.
+  intros Hb Hne. unfold hd_ascii. apply (blank_then_e _ (is_nil r)); [now apply blank_ok_wfb|exact bs_ascii|intros E; contradiction].
+Qed.
 
 Definition wf_ptail (t : list (blank * blank * Ident)) : bool :=
   forallb (fun x => wf_blank (fst (fst x)) && wf_blank (snd (fst x)) && is_ident (snd x)) t.
